@@ -16,7 +16,71 @@ func zlist(l []int64) []any {
 
 // full form: per-push padding pattern (cyclic), response padding, mode, targets
 func sendSz(c, ty, n1, n2, tag int64, pads []int64, rpad, mode int64, targets ...int64) hx.T {
-	return hx.C("OSend", c, ty, n1, n2, tag, zlist(pads), rpad, mode, zlist(targets), false, int64(0))
+	return hx.C("OSend", c, ty, n1, n2, tag, zlist(pads), rpad, mode, zlist(targets), false, int64(0), int64(0), int64(0))
+}
+
+// the same request whose multi-target pushes name k never-added connection ids before the targets
+func filled(o hx.T, k int64) hx.T {
+	o.Args = append([]any{}, o.Args...)
+	o.Args[11] = k
+	return o
+}
+
+// session traffic: kind 1 Set without PushSession, 2 Set + PushSession, 3 Bind without
+// PushSession; place 0 first thing, 1 just before the completion, 2 right after it
+func sessing(o hx.T, kind, place int64) hx.T {
+	o.Args = append([]any{}, o.Args...)
+	o.Args[12] = kind + 4*place
+	return o
+}
+
+// id-list lengths around anything a front-end could slice a broadcast by (the listed
+// connections stand at positions fill, fill+1, ...)
+var fills = []int64{1, 2, 15, 16, 31, 32, 63, 64, 99, 126, 127, 128, 129, 130, 199, 255, 256, 299, 511, 512, 1023, 1024}
+
+// rooms: one request per id-list length, the requester LAST in a list of fill+1 ids (and a second
+// connection behind it), pushes before and after the response
+func rooms(ty, mode int64, fs []int64, proto bool) []hx.T {
+	var ops []hx.T
+	if proto {
+		ops = append(ops, hx.C("OProto"))
+	}
+	ops = append(ops, hx.C("OConn", 1, 0), hx.C("OConn", 2, 0))
+	if ty == 1 {
+		ops = append(ops, hx.C("OKey", 1, 1), hx.C("OKey", 2, 1))
+	}
+	for j, f := range fs {
+		if j%2 == 0 {
+			ops = append(ops, filled(sendTo(1, ty, 2, 1, int64(j+1), 0, mode, 1), f))
+		} else {
+			ops = append(ops, filled(sendTo(2, ty, 1, 2, int64(j+1), 0, mode, 1, 2, 9), f-1))
+		}
+	}
+	return ops
+}
+
+// every way of touching the session around the completion, pushes before and after it
+func sessions(ty int64, proto bool) []hx.T {
+	var ops []hx.T
+	if proto {
+		ops = append(ops, hx.C("OProto"))
+	}
+	ops = append(ops, hx.C("OConn", 1, 0))
+	if ty == 1 {
+		ops = append(ops, hx.C("OKey", 1, 2))
+	}
+	tag := int64(1)
+	for kind := int64(1); kind <= 3; kind++ {
+		for place := int64(0); place <= 2; place++ {
+			o := sessing(send(1, ty, 2, 3, tag, 0), kind, place)
+			if (kind+place)%3 == 0 {
+				o = later(o)
+			}
+			ops = append(ops, o)
+			tag++
+		}
+	}
+	return ops
 }
 
 // the same request completing asynchronously: the handler returns, the whole sequence (pushes,
@@ -80,6 +144,18 @@ func burst(n int64, slow int64, pad int64) []hx.T {
 		hx.C("OKey", 1, 2), send(1, 1, n, 3, 4, pad), send(1, 2, 5, n/2, 5, pad), send(1, 0, 5, 5, 6, pad)}
 }
 
+// n real connections, then the last, the first and the 129th push to all of them (in connection
+// order) around their response
+func realRoom(n int64) []hx.T {
+	var ops []hx.T
+	var all []int64
+	for c := int64(1); c <= n; c++ {
+		ops = append(ops, hx.C("OConn", c, 0))
+		all = append(all, c)
+	}
+	return append(ops, sendTo(n, 0, 1, 1, 1, 0, 1, all...), sendTo(n, 2, 1, 1, 2, 0, 2, all...), sendTo(1, 2, 1, 0, 3, 0, 1, all...), sendTo(129, 0, 1, 0, 4, 0, 2, all...))
+}
+
 func fixedCases(tier string) [][]hx.T {
 	out := [][]hx.T{
 		// F8: front-local push then response
@@ -122,6 +198,27 @@ func fixedCases(tier string) [][]hx.T {
 		{hx.C("OConn", 1, 0), hx.C("OConn", 2, 0), hx.C("OConn", 3, 0), kicking(sendTo(1, 0, 2, 2, 1, 0, 2, 3, 2, 1), 3), kicking(later(sendTo(1, 2, 2, 2, 2, 0, 2, 2, 1, 3)), 2), send(1, 0, 1, 1, 3, 0)},
 		{hx.C("OProto"), hx.C("OConn", 1, 0), hx.C("OConn", 2, 0), hx.C("OConn", 3, 0), hx.C("OKey", 3, 1), kicking(later(sendTo(3, 1, 3, 1, 1, 0, 1, 1, 2, 3)), 1), kicking(sendTo(3, 0, 2, 2, 2, 0, 1, 2, 2, 3), 2),
 			kicking(send(3, 0, 1, 1, 3, 0), 3), kicking(send(3, 2, 1, 1, 4, 0), 7)},
+		// ROOMS (C03-9): multi-target pushes naming 2 .. 300 ids (never-added ones first, the real
+		// connections at the END of the list: positions 1, 126, 127, 128, 129, 199, 299), followed by
+		// the response and later pushes - front-local and forwarded, by ids and through a channel
+		rooms(0, 1, []int64{1, 126, 127, 128, 129, 199, 299}, false),
+		rooms(2, 1, []int64{1, 126, 127, 128, 129, 199, 299}, false),
+		rooms(0, 2, []int64{127, 128, 129, 299}, false),
+		rooms(2, 2, []int64{127, 128, 129, 299}, true),
+		rooms(1, 1, []int64{63, 64, 255, 256, 512, 1024}, true),
+		{hx.C("OConn", 1, 0), hx.C("OConn", 2, 0), hx.C("OConn", 3, 0), filled(sendTo(1, 2, 3, 2, 1, 0, 1, 1, 2, 3, 1), 126), filled(sendTo(2, 0, 3, 2, 2, 0, 2, 3, 2, 1), 127),
+			filled(later(sendTo(3, 2, 2, 2, 3, 0, 2, 1, 2, 3)), 128), send(1, 2, 1, 1, 4, 0), send(3, 0, 1, 1, 5, 0)},
+		// a room of 130 REAL connections on one front-end: the last ones say something (front-local,
+		// forwarded), everybody gets it before the speaker's response
+		realRoom(130),
+		// SESSION TRAFFIC (C03-10): the handler touches its session - Set without PushSession, Set +
+		// PushSession, Bind - first thing, just before or right after completing, with pushes before
+		// and after the completion; another client's handler on the same service pushing to the first
+		sessions(2, false),
+		sessions(1, true),
+		sessions(0, false),
+		{hx.C("OConn", 1, 0), hx.C("OConn", 2, 0), sessing(send(1, 2, 0, 0, 1, 0), 1, 0), sendTo(2, 2, 2, 1, 2, 0, 1, 1, 2), sessing(send(1, 2, 1, 0, 3, 0), 3, 1), sendTo(2, 2, 2, 1, 4, 0, 2, 1),
+			sessing(send(2, 2, 0, 0, 5, 0), 2, 0), sendTo(1, 2, 2, 1, 6, 0, 1, 2, 1)},
 		// sizes varying WITHIN one issue sequence (C03-4: a big packet overtaking queued small ones)
 		{hx.C("OConn", 1, 0), sendSz(1, 0, 3, 0, 1, []int64{0, 6000, 0}, 0, 0), sendSz(1, 0, 3, 0, 2, nil, 6000, 0)},
 		{hx.C("OConn", 1, 0), sendSz(1, 2, 3, 0, 1, []int64{0, 6000, 0}, 0, 0), sendSz(1, 2, 3, 0, 2, nil, 6000, 0)},
@@ -244,6 +341,16 @@ func gen(cfg *hx.Config, i int) ([]hx.T, []string) {
 				}
 			}
 			o := sendSz(c, ty, n1, n2, tag, pads, rpad, mode, targets...)
+			if mode != 0 && r.Intn(3) == 0 {
+				// a big room: never-added ids before the targets, the targets at positions fill..
+				tags["many-ids"] = true
+				o = filled(o, hx.Pick(r, fills))
+			}
+			if r.Intn(4) == 0 {
+				kind, place := int64(1+r.Intn(3)), int64(r.Intn(3))
+				tags[[]string{"", "sess-set", "sess-set-push", "sess-bind"}[kind]] = true
+				o = sessing(o, kind, place)
+			}
 			if r.Intn(4) == 0 {
 				tags["completes-later"] = true
 				o = later(o)
